@@ -250,6 +250,17 @@ def gen_cases(rng, tier):
     cases = []
     for i in range(96 if q else 480):
         cases.append(gen_script(rng, "flood" if i % 16 == 15 else "mixed"))
+    # the reader of the report channel is late and the channel fills up ("however many reports arrive"): first reports of
+    # distinct sessions, more of them than the channel holds - every one must arrive once the reader runs. Capacities 1, 3
+    # and the agent's own (reportNotifyChan: 1024).
+    for cap, extra in ((1, 4), (3, 17), (1024, 300)) + (() if q else ((1024, 3000), (2, 50))):
+        ids = []
+        while len(ids) < cap + extra:
+            f = rand_fseid(rng)
+            if f not in ids:
+                ids.append(f)
+        cases.append({"kind": "notifier", "interval_us": 60000000, "steps": [[f, 0] for f in ids], "cls": f"backlog/{cap}",
+                      "cap": cap, "stall_us": 20000})
     for _ in range(500 if q else 5000):
         cases.append(gen_digest(rng))
     for _ in range(60 if q else 300):
@@ -495,7 +506,8 @@ def harness_inputs(cases):
                 lines.append({"kind": "notifier", "scripts": []})
                 batch = len(lines) - 1
             slots.append((batch, len(lines[batch]["scripts"])))
-            lines[batch]["scripts"].append({"interval_us": c["interval_us"], "steps": c["steps"]})
+            lines[batch]["scripts"].append({"interval_us": c["interval_us"], "steps": c["steps"],
+                                            "cap": c.get("cap", 0), "stall_us": c.get("stall_us", 0)})
         else:
             slots.append((len(lines), None))
             lines.append({k: v for k, v in c.items() if k != "cls"})
